@@ -305,6 +305,8 @@ def cache_oracle(case, res):
                 continue
             if (want[a] == want[b]) != (addrs[a] == addrs[b]):
                 bad.append('cache-intern-same' if want[a] == want[b] else 'cache-intern-different')
+    if f.get('O', 'ok') != 'ok':
+        bad.append('harness-verdict:' + f['O'].replace(' ', '_'))     # read-back / interning on the object and on its clones
     return sorted(set(bad))
 
 
